@@ -147,7 +147,42 @@ func run(repo string) (string, error) {
 		return "", fmt.Errorf("handleCallReq no longer calls handShake")
 	}
 
-	s := ex.Header("P2PFlow", "p2p/client.go, p2p/server.go")
+	// utils.MergeErrors (what handShake returns): every forwarding goroutine releases the
+	// WaitGroup on every way out, i.e. its body starts with `defer wg.Done()`.
+	_, uf, err := ex.Parse(filepath.Join(repo, "utils", "utils.go"))
+	if err != nil {
+		return "", err
+	}
+	me := ex.FuncDecl(uf, "", "MergeErrors")
+	if me == nil {
+		return "", fmt.Errorf("utils.MergeErrors not found")
+	}
+	releases, sawOutput := false, false
+	walk(me, func(n ast.Node, st []ast.Node) {
+		a, ok := n.(*ast.AssignStmt)
+		if !ok || len(a.Lhs) != 1 || txt(a.Lhs[0]) != "output" || len(a.Rhs) != 1 {
+			return
+		}
+		fl, ok := a.Rhs[0].(*ast.FuncLit)
+		if !ok {
+			return
+		}
+		sawOutput = true
+		if len(fl.Body.List) > 0 && txt(fl.Body.List[0]) == "defer wg.Done()" {
+			releases = true
+		}
+	})
+	usesMerge := false
+	walk(ex.FuncDecl(cf, "client", "handShake"), func(n ast.Node, st []ast.Node) {
+		if c, ok := n.(*ast.CallExpr); ok && txt(c.Fun) == "utils.MergeErrors" {
+			usesMerge = true
+		}
+	})
+	if !sawOutput || !usesMerge {
+		return "", fmt.Errorf("handShake / utils.MergeErrors no longer have the expected shape")
+	}
+
+	s := ex.Header("P2PFlow", "p2p/client.go, p2p/server.go, utils/utils.go")
 	s += "namespace Dos.Gen\n"
 	s += "/-- every write `requests[…] = …` in dispatch is `requests[nonce] = &req` under `if req.rType != replyReq` -/\n"
 	s += fmt.Sprintf("def dispatchRegistersOnlyNonReply : Bool := %s\n", lb(regs == 1 && regsGuarded == 1 && setNonce))
@@ -159,6 +194,8 @@ func run(repo string) (string, error) {
 	s += fmt.Sprintf("def packCompletesOnlyReply : Bool := %s\n", lb(pcalls >= 1 && pcalls == pguarded))
 	s += "/-- handleCallReq puts a deadline on the connection before it starts the handshake -/\n"
 	s += fmt.Sprintf("def handshakeDeadline : Bool := %s\n", lb(dlPos != 0 && dlPos < hsPos))
+	s += "/-- the merge of the handshake's error channels (utils.MergeErrors) releases its WaitGroup on every exit of a forwarder -/\n"
+	s += fmt.Sprintf("def mergeErrorsReleases : Bool := %s\n", lb(releases))
 	s += "end Dos.Gen\n"
 	return s, nil
 }
